@@ -271,9 +271,23 @@ var c20Encode = probe.Define("C20", "encode-pure", func(t *rapid.T) c20EncIn {
 	if p := overlapsBuffer(lm.Payloads, ys[0]); p != "" {
 		return probe.Fail("payload field %s shares memory with the buffer returned by Encode", p)
 	}
+	// the header object can marshal itself (header octets followed by the payload octets it holds from the last encoding):
+	// whatever that gives, it stays the same when the caller reuses the buffers Encode returned
+	var h0 []byte
+	herr := probe.Try(func() error { var e error; h0, e = lm.IKEHeader.Marshal(); return e })
+	if probe.IsPanic(herr) {
+		return probe.Fail("IKEHeader.Marshal() after Encode: %v", herr)
+	}
+	h0copy := append([]byte(nil), h0...)
 	for pass := 0; pass < 2; pass++ {
 		scribble(ys[0], pass)
 		scribble(ys[1], pass)
+		scribble(ys[2], pass)
+		scribble(h0, pass)
+		var h1 []byte
+		if err := probe.Try(func() error { var e error; h1, e = lm.IKEHeader.Marshal(); return e }); (err == nil) != (herr == nil) || !bytes.Equal(h1, h0copy) {
+			return probe.Fail("overwriting the buffers returned by Encode changed what the message's header marshals: the message references a returned buffer (%v)", err)
+		}
 		after, err := bridge.FromLib(lm)
 		if err != nil {
 			return probe.Fail("HARNESS: %v", err)
